@@ -37,6 +37,27 @@ def size_of(run, sid):
     return len(msgs), sum(len(m) for m in msgs if m is not None)
 
 
+def value_of_mev(mev):
+    """the contract value carried by a model event [10|11|12] + value ints (producer_lib.value_ints), decoded from the
+    event itself (the python-level event list is not index-aligned with the model events: driver 2, sync results)"""
+    tag = mev[1]
+    if tag == 0:
+        return ("empty",)
+    if tag == 1:
+        n = mev[2]
+        f = mev[3:3 + n]
+        return ("resp", [tuple(f[k:k + 4]) for k in range(0, n, 4)])
+    if tag == 2:
+        n1 = mev[2]
+        f1 = mev[3:3 + n1]
+        n2 = mev[3 + n1]
+        f2 = mev[4 + n1:4 + n1 + n2]
+        return ("failed", [tuple(f1[k:k + 4]) for k in range(0, n1, 4)], [tuple(f2[k:k + 3]) for k in range(0, n2, 3)])
+    if tag == 3:
+        return ("kafka", mev[2])
+    return ("other", mev[2])
+
+
 def steps(run):
     """[(index, model event, outputs in implementation order, snapshot before, snapshot after)]"""
     out, prev = [], run.snap0
